@@ -1,5 +1,6 @@
 """C10 - restarting from persisted state is safe at every crash point (structural part)."""
 from engine import *
+import provenance
 import re
 import chainrules
 
@@ -419,4 +420,5 @@ RULES = [
 	('10.l', 'a fulfilled payment is forgotten only once none of its HTLCs is outstanding (it guards the restart rebuild)', r10l),
 	('10.m', 'restart-time replay of on-chain HTLC failures: waits for maturity; compares a confirmed counterparty commitment (current or previous) with its own HTLC list', lambda F: chainrules.restart_replay_guard(F, '10.m')),
 	('10.d', 'startup-only helpers are reachable only from the restart routine; reconstruction calls exist', r10d),
+	('10.p', 'same-name field transfer: structs carrying this property\'s quantities are filled from the same-named field or a reviewed alias (rules/provenance.py)', lambda F: provenance.for_property(F, 'C10', '10.p')),
 ]
